@@ -77,6 +77,10 @@ func (e enc) entRat(id uint16, typ uint16, v ...uint32) gEnt {
 	return gEnt{id: id, typ: typ, count: uint32(len(v) / 2), data: e.u32(v...)}
 }
 
+// identifiers that announce a directory in one directory and are foreign in the others: SubIFDs (IFD0 only), the Exif and
+// GPS pointers (IFD0 only), the maker note (Exif directory only)
+var contextForeign = map[string][]uint16{"ifd0": {0x927c}, "exif": {0x014a, 0x8769, 0x8825}, "gps": {0x014a, 0x8769, 0x8825, 0x927c}}
+
 var foreignIDs = []uint16{0x00fe, 0x0102, 0x011a, 0x011b, 0x0128, 0x0213, 0x9000, 0x9101, 0xa000, 0xa001, 0xa20e, 0xa300, 0xa401, 0xa403, 0xea1c, 0x0010, 0x001b}
 
 func (c *Ctx) rstr(max int) string {
@@ -355,9 +359,20 @@ func buildTIFF(c *Ctx, r lrec, big bool, lo layoutOpt) []byte {
 		out = []byte("II*\x00")
 	}
 	d0, de, dg := e.dirs(r)
-	withForeign := func(l []gEnt) []gEnt {
+	withForeign := func(dir string, l []gEnt) []gEnt {
 		for i := 0; i < lo.foreign; i++ {
 			id := foreignIDs[c.Rng.Intn(len(foreignIDs))]
+			if ids := contextForeign[dir]; len(ids) > 0 && c.Rng.Intn(4) == 0 {
+				// an identifier that points to a directory (or a list of directories) in ANOTHER directory and means nothing
+				// here: LONG x 1..3 whose values look like offsets into this file
+				n := 1 + c.Rng.Intn(3)
+				var d []byte
+				for k := 0; k < n; k++ {
+					d = append(d, e.u32(uint32(c.Rng.Intn(3000)))...)
+				}
+				l = append(l, gEnt{id: ids[c.Rng.Intn(len(ids))], typ: 4, count: uint32(n), data: d})
+				continue
+			}
 			switch c.Rng.Intn(3) {
 			case 0:
 				l = append(l, e.entShort(id, uint16(c.Rng.Intn(65536))))
@@ -405,7 +420,7 @@ func buildTIFF(c *Ctx, r lrec, big bool, lo layoutOpt) []byte {
 			}
 		}
 	}
-	dirsByName := map[string][]gEnt{"ifd0": withForeign(d0), "exif": withForeign(de), "gps": withForeign(dg)}
+	dirsByName := map[string][]gEnt{"ifd0": withForeign("ifd0", d0), "exif": withForeign("exif", de), "gps": withForeign("gps", dg)}
 	// block scheduling: a directory, then (in random forward order) its out-of-line values and sub-directories
 	type patch struct {
 		at  int // position of the 4-byte offset slot in out
